@@ -4,6 +4,10 @@ func dispatchMore(cmd string, r *prng, count int, extra string) bool {
 	switch cmd {
 	case "codec":
 		runCodec(r, count)
+	case "orch":
+		for i := 0; i < count; i++ {
+			emit(runOrchHistory(newPRNG(r.next()), i))
+		}
 	case "box-seq":
 		for i := 0; i < count; i++ {
 			emit(runBoxSeq(newPRNG(r.next()), i))
